@@ -15,8 +15,8 @@ import (
 	"github.com/smart-core-os/sc-golang/pkg/trait/enterleavesensorpb"
 	"github.com/smart-core-os/sc-golang/pkg/trait/fanspeedpb"
 	"github.com/smart-core-os/sc-golang/pkg/trait/lightpb"
-	"github.com/smart-core-os/sc-golang/pkg/trait/meterpb"
 	"github.com/smart-core-os/sc-golang/pkg/trait/metadatapb"
+	"github.com/smart-core-os/sc-golang/pkg/trait/meterpb"
 	"github.com/smart-core-os/sc-golang/pkg/trait/modepb"
 	"github.com/smart-core-os/sc-golang/pkg/trait/occupancysensorpb"
 	"github.com/smart-core-os/sc-golang/pkg/trait/onoffpb"
@@ -79,7 +79,9 @@ func init() {
 		func(m *onoffpb.Model, pr *proc) (proto.Message, error) {
 			return msgOrNil(m.UpdateOnOff(&traits.OnOff{State: traits.OnOff_State(1 + pr.rnd.n(2))}))
 		},
-		func(m *onoffpb.Model, ctx context.Context) <-chan onoffpb.PullOnOffChange { return m.PullOnOff(ctx, bp) },
+		func(m *onoffpb.Model, ctx context.Context) <-chan onoffpb.PullOnOffChange {
+			return m.PullOnOff(ctx, bp)
+		},
 		func(c onoffpb.PullOnOffChange) { touch(c.Value); touchTime(c.ChangeTime) })
 
 	regSimple("light", func() *lightpb.Model { return lightpb.NewModel() },
@@ -93,7 +95,9 @@ func init() {
 		func(m *lightpb.Model, pr *proc) (proto.Message, error) {
 			return msgOrNil(m.UpdateBrightness(&traits.Brightness{LevelPercent: float32(pr.rnd.n(100))}))
 		},
-		func(m *lightpb.Model, ctx context.Context) <-chan lightpb.PullBrightnessChange { return m.PullBrightness(ctx, bp) },
+		func(m *lightpb.Model, ctx context.Context) <-chan lightpb.PullBrightnessChange {
+			return m.PullBrightness(ctx, bp)
+		},
 		func(c lightpb.PullBrightnessChange) { touch(c.Value); touchTime(c.ChangeTime) })
 
 	regSimple("fanspeed", func() *fanspeedpb.Model { return fanspeedpb.NewModel() },
@@ -107,7 +111,9 @@ func init() {
 			}
 			return msgOrNil(m.UpdateFanSpeed(&traits.FanSpeed{Percentage: float32(pr.rnd.n(100))}, resource.WithUpdatePaths("percentage")))
 		},
-		func(m *fanspeedpb.Model, ctx context.Context) <-chan fanspeedpb.FanSpeedChange { return m.PullFanSpeed(ctx, bp) },
+		func(m *fanspeedpb.Model, ctx context.Context) <-chan fanspeedpb.FanSpeedChange {
+			return m.PullFanSpeed(ctx, bp)
+		},
 		func(c fanspeedpb.FanSpeedChange) { touch(c.Value); touchTime(c.ChangeTime) })
 
 	regSimple("mode", func() *modepb.Model { return modepb.NewModel() },
@@ -121,7 +127,9 @@ func init() {
 		func(m *modepb.Model, pr *proc) (proto.Message, error) {
 			return msgOrNil(m.UpdateModeValues(&traits.ModeValues{Values: map[string]string{"spin": []string{"auto", "slow", "fast"}[pr.rnd.n(3)]}}))
 		},
-		func(m *modepb.Model, ctx context.Context) <-chan modepb.ModeValuesChange { return m.PullModeValues(ctx, bp) },
+		func(m *modepb.Model, ctx context.Context) <-chan modepb.ModeValuesChange {
+			return m.PullModeValues(ctx, bp)
+		},
 		func(c modepb.ModeValuesChange) { touch(c.Value); touchTime(c.ChangeTime) })
 
 	regSimple("enterleave", func() *enterleavesensorpb.Model { return enterleavesensorpb.NewModel() },
@@ -201,7 +209,9 @@ func init() {
 			}
 			return msgOrNil(m.RecordReading(float32(pr.rnd.n(1000))))
 		},
-		func(m *meterpb.Model, ctx context.Context) <-chan meterpb.PullMeterReadingChange { return m.PullMeterReadings(ctx, bp) },
+		func(m *meterpb.Model, ctx context.Context) <-chan meterpb.PullMeterReadingChange {
+			return m.PullMeterReadings(ctx, bp)
+		},
 		func(c meterpb.PullMeterReadingChange) { touch(c.Value); touchTime(c.ChangeTime) })
 
 	regSimple("access", func() *accesspb.Model { return accesspb.NewModel() },
@@ -209,7 +219,9 @@ func init() {
 		func(m *accesspb.Model, pr *proc) (proto.Message, error) {
 			return msgOrNil(m.UpdateLastAccessAttempt(&traits.AccessAttempt{Grant: traits.AccessAttempt_Grant(1 + pr.rnd.n(3)), Reason: pr.uniq("r")}))
 		},
-		func(m *accesspb.Model, ctx context.Context) <-chan accesspb.PullAccessAttemptsChange { return m.PullAccessAttempts(ctx, bp) },
+		func(m *accesspb.Model, ctx context.Context) <-chan accesspb.PullAccessAttemptsChange {
+			return m.PullAccessAttempts(ctx, bp)
+		},
 		func(c accesspb.PullAccessAttemptsChange) { touch(c.Value); touchTime(c.ChangeTime) })
 
 	regSimple("press", func() *presspb.Model { return presspb.NewModel(traits.PressedState_UNPRESSED) },
@@ -217,8 +229,14 @@ func init() {
 		func(m *presspb.Model, pr *proc) (proto.Message, error) {
 			return msgOrNil(m.UpdatePressedState(&traits.PressedState{State: traits.PressedState_Press(1 + pr.rnd.n(2))}))
 		},
-		func(m *presspb.Model, ctx context.Context) <-chan presspb.PullPressedStateChange { return m.PullPressedState(ctx, bp) },
-		func(c presspb.PullPressedStateChange) { touch(c.Value); touchTime(c.ChangeTime); useBool(c.LastSeedValue) })
+		func(m *presspb.Model, ctx context.Context) <-chan presspb.PullPressedStateChange {
+			return m.PullPressedState(ctx, bp)
+		},
+		func(c presspb.PullPressedStateChange) {
+			touch(c.Value)
+			touchTime(c.ChangeTime)
+			useBool(c.LastSeedValue)
+		})
 
 	regSimple("vending", func() *vendingpb.Model { return vendingpb.NewModel() },
 		func(m *vendingpb.Model, pr *proc) proto.Message {
@@ -239,7 +257,9 @@ func init() {
 			}
 			return msgOrNil(m.DispenseInstantly("water", &traits.Consumable_Quantity{Amount: 1, Unit: traits.Consumable_CUP}))
 		},
-		func(m *vendingpb.Model, ctx context.Context) <-chan vendingpb.InventoryChange { return m.PullInventory(ctx, bp) },
+		func(m *vendingpb.Model, ctx context.Context) <-chan vendingpb.InventoryChange {
+			return m.PullInventory(ctx, bp)
+		},
 		func(c vendingpb.InventoryChange) {
 			if c.OldValue != nil {
 				touch(c.OldValue)
@@ -274,7 +294,9 @@ func init() {
 		func(m *metadatapb.Model, pr *proc) (proto.Message, error) {
 			return msgOrNil(m.UpdateTraitMetadata(&traits.TraitMetadata{Name: []string{"t1", "t2"}[pr.rnd.n(2)], More: map[string]string{"u": pr.uniq("v")}}))
 		},
-		func(m *metadatapb.Model, ctx context.Context) <-chan *traits.PullMetadataResponse_Change { return m.PullMetadata(ctx, bp) },
+		func(m *metadatapb.Model, ctx context.Context) <-chan *traits.PullMetadataResponse_Change {
+			return m.PullMetadata(ctx, bp)
+		},
 		func(c *traits.PullMetadataResponse_Change) { touch(c) })
 
 	_ = time.Second
